@@ -110,8 +110,10 @@ fn exercise(p: &Program, plan: &Plan) -> ProgOutcome {
         // remain (no pending value, no counter-pinned node)
         let nk = kept.len() as u64;
         drop(kept);
-        for l in p.leaves() {
-            let _ = handles[l].as_ref().unwrap().replace_gradient();
+        if !plan.probe_with_gradients_stored {
+            for l in p.leaves() {
+                let _ = handles[l].as_ref().unwrap().replace_gradient();
+            }
         }
         invlog_reset(false);
         let mid = ledger::live();
@@ -146,6 +148,9 @@ fn exercise(p: &Program, plan: &Plan) -> ProgOutcome {
 }
 
 struct Plan {
+    /// probe the leaves while the gradients the passes stored are still in place (stored gradients are independent
+    /// arrays: none of them may alias another array's buffer); the residual-footprint reading is skipped then
+    probe_with_gradients_stored: bool,
     passes: Vec<(usize, Option<Vec<f64>>)>,
     clear: Vec<usize>,
     keep_gradients: bool,
@@ -185,6 +190,7 @@ fn run_program(ctx: &mut Ctx, fam: &str, k: u64, r: &mut Rng) {
         _ => r.shuffle(&mut drop_order),
     }
     let plan = Plan {
+        probe_with_gradients_stored: r.chance(1, 3),
         passes,
         clear: p.leaves().into_iter().filter(|_| r.chance(1, 4)).collect(),
         keep_gradients: r.chance(1, 2),
@@ -273,7 +279,10 @@ fn run_program(ctx: &mut Ctx, fam: &str, k: u64, r: &mut Rng) {
         // `handles` (a Vec of options) is still allocated at the mid point: one block of n * size_of::<Option<Array>>
         let vec_bytes = (p.nodes.len() * std::mem::size_of::<Option<Array>>()) as isize;
         let residual = (o.mid.0 - before.0 - 1 - leaves_only.0, o.mid.1 - before.1 - vec_bytes - leaves_only.1);
-        if residual != (0, 0) && !p.leaves().is_empty() {
+        if plan.probe_with_gradients_stored {
+            ctx.count("cases_probed_with_gradients_stored", 1);
+        }
+        if residual != (0, 0) && !p.leaves().is_empty() && !plan.probe_with_gradients_stored {
             ctx.violation(
                 &format!("C18|{}|residue-after-dropping-results", sub),
                 format!("with every result dropped and every gradient cleared, {} block(s) / {} byte(s) beyond the leaves themselves are still allocated (pending value or retained node)\nprogram: {}\npasses: {:?}", residual.0, residual.1, p.pretty(), plan.passes),
